@@ -170,6 +170,18 @@ func init() {
 	}
 }
 
+// richLiterals: one well-formed member per literal kind used by the shipped vocabularies.
+func richLiterals() J {
+	return J{"duration": "PT5M", "published": "2019-01-01T00:00:00Z", "startTime": "2019-01-01T00:00:00+01:00", "endTime": "2019-01-02T00:00:00Z",
+		"updated": "2019-01-03T00:00:00Z", "deleted": "2019-01-04T00:00:00Z", "totalItems": 3, "startIndex": 0, "latitude": 1.5, "longitude": -2.25,
+		"altitude": 10.0, "accuracy": 50.0, "radius": 3.0, "units": "km", "mediaType": "text/html", "hreflang": "en", "rel": "canonical",
+		"height": 100, "width": 200, "name": "n", "nameMap": J{"en": "n", "fr": "n"}, "summaryMap": J{"en": "s"}, "contentMap": J{"en": "c"},
+		"closed": true, "anyOf": []interface{}{}, "formerType": "Note", "url": "https://" + hostR + "/u", "href": "https://" + hostR + "/h"}
+}
+
+var hostileLexical = []interface{}{"", "-", "P", "-P", "PT", "P1", "1Y", "-PT-5M", "P99999999999999999999Y", "2019-13-45T99:99:99Z", "T", "0000-00-00T00:00:00Z",
+	"not a time", -1, 1e308, 1.5, "1.5", "NaN", true, nil, []interface{}{}, []interface{}{""}, J{}, J{"": ""}, J{"en": 5}, "\u0000", " ", "a/b/c/d", "%zz", ":", "http://[::1", "mailto:"}
+
 func hostileDocs(st *Std) {
 	st.W.Remote = append(st.W.Remote,
 		DocSpec{iriIllTyped, mustJSON(J{"@context": asCtx, "type": "Note", "id": iriIllTyped, "content": "not what you expected"})},
@@ -209,6 +221,35 @@ func driveC11(c *DriveCtx, r *Rng, k int) {
 		if q.Intn(5) == 0 {
 			a.DeliverDepth, a.ForwardDepth = 1+q.Intn(2), 1+q.Intn(2)
 		}
+	}
+	if r.Intn(5) == 0 {
+		// a body whose object carries a member of every literal kind of the vocabularies, with one hostile lexical form
+		sp := mkBase()
+		knobs(sp)
+		rq := &sp.Requests[0]
+		if rq.Body == nil || rq.Kind == "send" {
+			c.Exec(sp)
+			return
+		}
+		body, err := parseJ(rq.Body)
+		if err != nil {
+			return
+		}
+		rich := richLiterals()
+		keys := sortedKeys(rich)
+		for _, k := range keys {
+			body[k] = rich[k]
+		}
+		victim := Pick(r, keys)
+		lex := Pick(r, hostileLexical)
+		body[victim] = lex
+		if om, ok := body["object"].(map[string]interface{}); ok && r.Bool() {
+			om[victim] = lex
+		}
+		rq.Body = mustJSON(body)
+		sp.Gen += fmt.Sprintf(" literal:%s=%q", victim, lex)
+		c.Exec(sp)
+		return
 	}
 	switch r.Intn(4) {
 	case 0, 1: // request body
